@@ -12,6 +12,8 @@ import GojaModel.C10.LemmasTr
 import GojaModel.C10.LemmasR
 import GojaModel.C10.LemmasA
 import GojaModel.C10.LemmasC
+import GojaModel.C10.LemmasAw
+import GojaModel.C10.LemmasFin
 import GojaModel.C10.Interp
 
 namespace GojaModel.C10
@@ -66,7 +68,7 @@ theorem popJob_starts_oldest {k : K} (h : Reach k) (j : Job) (rest : List Job) (
     (k.enq.drop k.ran.length).head? = some j ∧ (popJob k).ran = k.ran ++ [j] := by
   constructor
   · rw [← ran_is_prefix_of_enqueued h, hj]; simp
-  · unfold popJob; rw [hj]; cases j <;> rfl
+  · exact (popJob_cons k j rest hj).2
 
 /-- Every job is started at most once (serials of started jobs are pairwise distinct). -/
 theorem job_runs_at_most_once {k : K} (h : Reach k) : (k.ran.map Job.sid).Nodup := by
@@ -83,49 +85,88 @@ theorem queue_empty_on_normal_return {k : K} (h : Reach k) (hq : k.jobs = []) : 
   simpa using this
 
 /-- The interpreter's drain (mechanism, with the batch counter) returns "not aborted" only with no job left. -/
-theorem drain_normal_return_empty (prog : Prog) : ∀ (n c : Nat) (st st' : St),
-    drainS prog n c st = (false, st') → st'.rk.val.jobs = [] := by
+theorem drain_normal_return_empty (prog : Prog) : ∀ (n c : Nat) (u u' : StU),
+    drainS prog n c u = (false, u') → u'.k.jobs = [] := by
   intro n
   induction n with
-  | zero => intro c st st' h; simp [drainS] at h
+  | zero => intro c u u' h; simp [drainS] at h
   | succ n ih =>
-    intro c st st' h
+    intro c u u' h
     simp only [drainS] at h
     split at h
     · rename_i hq
       simp only [Prod.mk.injEq, true_and] at h
       rw [← h]
-      exact List.isEmpty_iff.mp hq
+      exact List.isEmpty_iff.mp hq.2
     · split at h
       · simp at h
       · exact ih _ _ _ h
 
-/-- WHOLE-PROGRAM REFINEMENT, drain loop: the mechanism-level drain of the interpreter (Runtime.leave() with its
-batch counter = double buffer) and the specification drain (one FIFO queue, oldest job first) are the same function
-of the interpreter state, for every program, every fuel and every batch counter — same jobs run in the same order
-from the same states, same abort behaviour, same final state (event log, tracker log, promise table, …). -/
-theorem drain_mech_eq_spec (prog : Prog) : ∀ (n c : Nat) (st : St), drainS prog n c st = drainF prog n st := by
+/-- A job body is body code: by typing (`St k0` carries `BodyReach k0`), running the oldest job removes exactly that
+job from the front of the job list and otherwise only appends to it. -/
+theorem runJob_only_appends (prog : Prog) (fuel : Nat) (u : StU) (j : Job) (rest : List Job)
+    (hj : u.k.jobs = j :: rest) : ∃ new, (runJob prog fuel u).2.k.jobs = rest ++ new := by
+  unfold runJob
+  split
+  · rename_i h; rw [hj] at h; cases h
+  · rename_i j' rest' h
+    rw [hj] at h
+    cases h
+    simp only []
+    have hb := (bodyReach_mono
+      ((jobBody prog fuel j u.k.latches.length).run (u.sched .popJob).st).2.rk.property.2).1
+    obtain ⟨js, hjs⟩ := hb
+    refine ⟨js, ?_⟩
+    show ((jobBody prog fuel j u.k.latches.length).run (u.sched .popJob).st).2.rk.val.jobs = rest ++ js
+    rw [hjs]
+    have : (popJob u.k).jobs = rest := (popJob_cons u.k j rest hj).1
+    show (applyOp .popJob u.k).jobs ++ js = rest ++ js
+    simp only [applyOp]
+    rw [this]
+
+/-- WHOLE-PROGRAM REFINEMENT, drain loop.  The mechanism (Runtime.leave(): the loop may END only between batches, inside
+a batch it starts the next job without looking at the queue) and the specification (one FIFO queue, "while not empty run
+the oldest job") are the same function of the interpreter state whenever the batch counter does not exceed the number of
+queued jobs — in particular at every entry of leave() (counter 0): same jobs run in the same order from the same states,
+same abort behaviour, same final state.  The proof needs that job bodies only append to the job list
+(`runJob_only_appends`), which is exactly why the double buffer is sound. -/
+theorem drain_mech_eq_spec (prog : Prog) : ∀ (n c : Nat) (u : StU), c ≤ u.k.jobs.length →
+    drainS prog n c u = drainF prog n u := by
   intro n
   induction n with
-  | zero => intro c st; rfl
+  | zero => intro c u _; rfl
   | succ n ih =>
-    intro c st
+    intro c u hc
     simp only [drainS, drainF]
-    split
-    · rfl
-    · split
-      · rfl
-      · exact ih _ _
+    cases hjobs : u.k.jobs with
+    | nil =>
+      have : c = 0 := by rw [hjobs] at hc; simpa using hc
+      simp [this]
+    | cons j rest =>
+      obtain ⟨new, hnew⟩ := runJob_only_appends prog 100000 u j rest hjobs
+      simp only [List.isEmpty_cons, and_false, Bool.false_eq_true, if_false]
+      rcases hr : runJob prog 100000 u with ⟨ab, u1⟩
+      rw [hr] at hnew
+      cases ab with
+      | true => rfl
+      | false =>
+        simp only []
+        apply ih
+        simp only [] at hnew
+        rw [hnew, List.length_append]
+        rw [hjobs] at hc
+        simp only [List.length_cons] at hc ⊢
+        split <;> omega
 
 /-- WHOLE-PROGRAM REFINEMENT (trace equivalence): running any program — every outermost call (RunString, Go-side
 resolve/reject) followed by its drain — with the mechanism-level drain loop yields exactly the result of running
 it against the specification's single FIFO job queue: identical error kinds and identical final state, hence
 identical global event log, tracker log, promise states/results and kernel logs. -/
-theorem whole_program_mech_eq_spec (prog : Prog) (segs : List Seg) (st : St) :
-    runSegsWith drain prog segs st = runSegsWith drainSpec prog segs st := by
-  have : drain = drainSpec := by
-    funext p n st
-    exact drain_mech_eq_spec p n 0 st
+theorem whole_program_mech_eq_spec (prog : Prog) (segs : List Seg) (u : StU) :
+    runSegsWith drain prog segs u = runSegsWith drainF prog segs u := by
+  have : drain = drainF := by
+    funext p n u
+    exact drain_mech_eq_spec p n 0 u (Nat.zero_le _)
   rw [this]
 
 /-- leaveAbrupt: all queued jobs are discarded without starting anything; the discarded jobs leave the live log. -/
@@ -295,10 +336,9 @@ theorem tracker_handle_only_after_attach {k : K} (h : Reach k) (p : Nat) (hm : T
 theorem attach_to_unhandled_rejection_reports_handle {k : K} (h : Reach k) (p : Nat) (cap : Option Cap)
     (f g : Option Fn) (hs : (k.getP p).state = .rejected) (hh : (k.getP p).handled = false) :
     trkL (addReactions k p cap f g).tracker p = [.reject, .handle] := by
-  have hr : Reach (addReactions k p cap f g) := Reach.step (.addReactions p cap f g) h
+  have htr : TrInv (addReactions k p cap f g) := trinv_addReactions (trinv_reach h) p cap f g
   have hlt : p < k.proms.length := lt_of_not_pending (by rw [hs]; simp)
-  have hst := (frozen_applyOp (tinv_reach h) (.addReactions p cap f g) p (by rw [hs]; simp)).1
-  simp only [applyOp] at hst
+  have hst := (frozen_addReactions k p cap f g p).1
   have hhd : ((addReactions k p cap f g).getP p).handled = true := by
     unfold addReactions
     simp only [hlt, if_true]
@@ -307,7 +347,7 @@ theorem attach_to_unhandled_rejection_reports_handle {k : K} (h : Reach k) (p : 
         { cap := cap, isFul := true, handler := f, rid := k.nextRid }
         { cap := cap, isFul := false, handler := g, rid := k.nextRid }).2.2.1
     simp [this, hlt]
-  rcases ((trinv_reach hr).ok p).2.2 (by rw [hst]; exact hs) hhd with x | x
+  rcases (htr.ok p).2.2 (by rw [hst]; exact hs) hhd with x | x
   · -- impossible: the old log [reject] is a prefix of the new one
     exfalso
     have hold := tracker_reject_iff_unhandled h p hs hh
@@ -404,6 +444,134 @@ theorem late_attach_enqueues_one_job (k : K) (p : Nat) (cap : Option Cap) (f g :
     ((k.getP p).state = .pending → (addReactions k p cap f g).enqEver = k.enqEver) :=
   addReactions_enqEver k p cap f g
 
+/-! ## Async functions: control state of the activations (asyncRunner, func.go:681-745) -/
+
+/-- A SUSPENDED activation has exactly one pending way to be resumed (its reaction pair stored in a pending promise, or
+one queued reaction job whose handler is its onFulfilled/onRejected); a running, finished or abandoned one has none.
+So a continuation is never resumed twice, never after completion, and never while it is running. -/
+theorem async_one_pending_resumption_iff_suspended {k : K} (h : Reach k) (ar : Nat) :
+    acount k ar = if (k.getR ar).phase = .suspended then 1 else 0 :=
+  (asinv_reach h).count ar
+
+/-- Which continuation: the activation has executed exactly one more await than it has been resumed while it waits,
+and exactly as many otherwise — the n-th resumption continues after the n-th await (the interpreter keeps only that
+continuation). -/
+theorem async_nth_resume_follows_nth_await {k : K} (h : Reach k) (ar : Nat) :
+    (k.getR ar).awaits = (k.getR ar).resumes + waiting (k.getR ar) :=
+  (asinv_reach h).ctr ar
+
+/-- In job order: when the scheduler starts a job that resumes activation `ar`, that activation is suspended; starting
+the job makes it running again with `resumes = awaits`; and no other way to resume it is left anywhere. -/
+theorem async_resumed_exactly_when_its_job_starts {k : K} (h : Reach k) (j : Job) (rest : List Job) (ar : Nat)
+    (hj : k.jobs = j :: rest) (hr : j.runner? = some ar) :
+    (k.getR ar).phase = .suspended ∧ ((popJob k).getR ar).phase = .running ∧
+    ((popJob k).getR ar).resumes = ((popJob k).getR ar).awaits ∧ acount (popJob k) ar = 0 := by
+  have hc := async_one_pending_resumption_iff_suspended h ar
+  have hpos : 1 ≤ acount k ar := by
+    unfold acount; rw [hj, List.countP_cons]
+    have : jRun ar j = true := by simp [jRun, hr]
+    rw [this]; simp; omega
+  have hs : (k.getR ar).phase = .suspended := by
+    false_or_by_contra
+    rename_i hne
+    simp [hne] at hc; omega
+  have hlt : ar < k.runners.length := lt_of_susp (by simp [susp, hs])
+  have hra : k.runners[ar]? = some (k.getR ar) := by
+    unfold K.getR; simp [List.getD_eq_getElem?_getD, List.getElem?_eq_getElem hlt]
+  have hrun : (popJob k).runners = k.runners.set ar { k.getR ar with phase := .running, resumes := (k.getR ar).resumes + 1 } := by
+    unfold popJob; rw [hj]; simp only []; unfold resumeRunner; rw [hr]; simp only []; rw [hra]
+  have hg := getR_set k ar _ ar hlt (popJob k) hrun
+  have hr' : Reach (popJob k) := Reach.step .popJob h
+  have hphase : ((popJob k).getR ar).phase = .running := by rw [hg]; simp
+  refine ⟨hs, hphase, ?_, ?_⟩
+  · have := async_nth_resume_follows_nth_await hr' ar
+    simp [waiting, hphase] at this
+    exact this.symm
+  · rw [async_one_pending_resumption_iff_suspended hr' ar]; simp [hphase]
+
+/-- `await v`, v neither promise nor thenable: the resumption job is enqueued at once (the activation continues one
+job later with v). -/
+theorem await_nonthenable_resumes_next_job (k : K) (ar : Nat) (v : Val) (hv : isSelf v k.proms.length = false)
+    (hrun : (k.getR ar).phase = .running) (hlt : ar < k.runners.length) :
+    (awaitOp (callResolve (newCap k) k.latches.length v .notCallable) ar k.proms.length).jobs =
+      k.jobs ++ [Job.reaction k.nextSid k.proms.length
+        { cap := none, isFul := true, handler := some (.asyncFul ar), rid := k.nextRid } v] :=
+  (await_nonthenable k ar v hv hrun hlt).1
+
+/-- `await v`, v a thenable (or a promise with an overridden `then`): only the thenable job is enqueued, the
+resumption is stored in the still pending promise — at least two more jobs before the activation continues. -/
+theorem await_thenable_waits_for_thenable_job (k : K) (ar : Nat) (v : Val) (f : Fn) (hv : isSelf v k.proms.length = false)
+    (hrun : (k.getR ar).phase = .running) (hlt : ar < k.runners.length) :
+    (awaitOp (callResolve (newCap k) k.latches.length v (.callable f)) ar k.proms.length).jobs =
+      k.jobs ++ [Job.thenable k.nextSid k.proms.length v f] :=
+  (await_thenable k ar v f hv hrun hlt).1
+
+/-- `await p`, p a native promise: PerformPromiseThen directly on p (no `then` lookup, no wrapper promise): if p is
+already settled exactly one resumption job is enqueued carrying p's result, of the kind matching p's state; if p is
+pending nothing is enqueued. -/
+theorem await_promise_attaches_directly (k : K) (ar p : Nat) (hrun : (k.getR ar).phase = .running)
+    (hlt : ar < k.runners.length) (hp : p < k.proms.length) :
+    (awaitOp k ar p).jobs =
+      match (k.getP p).state with
+      | .pending => k.jobs
+      | .fulfilled => k.jobs ++ [.reaction k.nextSid p { cap := none, isFul := true, handler := some (.asyncFul ar), rid := k.nextRid } (k.getP p).result]
+      | .rejected => k.jobs ++ [.reaction k.nextSid p { cap := none, isFul := false, handler := some (.asyncRej ar), rid := k.nextRid } (k.getP p).result] := by
+  unfold awaitOp
+  simp only [hrun, hlt, hp, and_self, if_true]
+  exact (addReactions_jobs k p none _ _ hp).2
+
+/-- An interrupt abandons exactly the suspended activations whose resumption was queued: afterwards nothing can resume
+them (and the others keep their one pending resumption). -/
+theorem async_after_interrupt {k : K} (h : Reach k) (ar : Nat) :
+    acount (leaveAbrupt k) ar = if ((leaveAbrupt k).getR ar).phase = .suspended then 1 else 0 :=
+  async_one_pending_resumption_iff_suspended (Reach.step .leaveAbrupt h) ar
+
+/-! ## Promise.prototype.finally: tick structure (the class of seeded change C10-m2) -/
+
+/-- The thenFinally closure of `p.finally(f)` (builtin_promise.go:362-370), f returning a plain value x, performs
+EXACTLY: a new promise q resolved with x; a new capability d; `q.then(valueThunk)` attached through d; and it returns
+the PROMISE d — never `value` itself.  (So the reaction job that ran it resolves the result promise with a promise.) -/
+theorem finally_thenFinally_structure {k0 : K} (prog : Prog) (n f : Nat) (this value x : Val) (st st1 : St k0)
+    (hcall : (callFn prog (n + 1) (.user f) .undef []).run st = (.normal x, st1))
+    (hx : x.plain = true) (hbad : badTid st1 st1.rk.val.proms.length = none) :
+    (callFn prog (n + 2) (.thenFinally f) this [.v value]).run st =
+      (.normal (.prom (st1.rk.val.proms.length + 1)),
+       st1.ops [.newCap, .callResolve st1.rk.val.latches.length x .notCallable, .newCap,
+         .addReactions st1.rk.val.proms.length
+           (some (Cap.mk (st1.rk.val.proms.length + 1) (.resolve (st1.rk.val.latches.length + 1))
+                   (.reject (st1.rk.val.latches.length + 1))))
+           (some (.valueThunk value)) none]) :=
+  thenFinally_spec prog n f this value x st st1 hcall hx hbad
+
+/-- Same for the catchFinally closure (builtin_promise.go:372-380) with a thrower of the original reason. -/
+theorem finally_catchFinally_structure {k0 : K} (prog : Prog) (n f : Nat) (this reason x : Val) (st st1 : St k0)
+    (hcall : (callFn prog (n + 1) (.user f) .undef []).run st = (.normal x, st1))
+    (hx : x.plain = true) (hbad : badTid st1 st1.rk.val.proms.length = none) :
+    (callFn prog (n + 2) (.catchFinally f) this [.v reason]).run st =
+      (.normal (.prom (st1.rk.val.proms.length + 1)),
+       st1.ops [.newCap, .callResolve st1.rk.val.latches.length x .notCallable, .newCap,
+         .addReactions st1.rk.val.proms.length
+           (some (Cap.mk (st1.rk.val.proms.length + 1) (.resolve (st1.rk.val.latches.length + 1))
+                   (.reject (st1.rk.val.latches.length + 1))))
+           (some (.thrower reason)) none]) :=
+  catchFinally_spec prog n f this reason x st st1 hcall hx hbad
+
+/-- If onFinally throws or is interrupted, that completion replaces the original one and nothing else happens. -/
+theorem finally_onFinally_abrupt {k0 : K} (prog : Prog) (n f : Nat) (this value : Val) (st st1 : St k0) (r : Res)
+    (hcall : (callFn prog (n + 1) (.user f) .undef []).run st = (r, st1)) (hr : ∀ x, r ≠ .normal x) :
+    (callFn prog (n + 2) (.thenFinally f) this [.v value]).run st = (r, st1) :=
+  thenFinally_abrupt prog n f this value st st1 r hcall hr
+
+/-- One tick per level of promise nesting: resolving a pending promise with a thenable or a promise (what the reaction
+job does with thenFinally's result) only appends ONE thenable job and leaves every promise as it is — it cannot settle
+in the same job.  With `late_attach_enqueues_one_job` (the thenable job's `then` on the already fulfilled d, or the
+stored reaction otherwise) the result of `finally` settles two jobs after the valueThunk job at the earliest. -/
+theorem resolve_with_thenable_defers (k : K) (l p : Nat) (v : Val) (f : Fn)
+    (hl : k.latches[l]? = some (p, false)) (hv : isSelf v p = false) :
+    (callResolve k l v (.callable f)).jobs = k.jobs ++ [Job.thenable k.nextSid p v f] ∧
+    (callResolve k l v (.callable f)).proms = k.proms :=
+  resolve_with_thenable_defers_k k l p v f hl hv
+
 /-! ## Combinators: Promise.all / allSettled / any (remainingElementsCount protocol) -/
 
 /-- In every reachable bookkeeping record: remainingElementsCount = (1 while iterating) + number of elements whose
@@ -462,12 +630,13 @@ theorem comb_value_written_once {c : CombRec} (hc : CReach c) (idx : Nat) (h : c
 
 /-! ## The executable model never leaves the invariants -/
 
-/-- Every state of the interpreter satisfies all kernel invariants (by typing: `St.rk : {k // Reach k}`). -/
-theorem interpreter_state_invariants (st : St) :
+/-- Every state of the interpreter satisfies all kernel invariants (by typing: `St.rk : {k // Reach k ∧ BodyReach k0 k}`). -/
+theorem interpreter_state_invariants {k0 : K} (st : St k0) :
     QInv st.rk.val ∧ TInv st.rk.val ∧ TrInv st.rk.val ∧ RInv st.rk.val ∧ EInv st.rk.val ∧ AInv st.rk.val ∧
-    (∀ cb ∈ st.combs, CInv cb.crec.val) :=
-  ⟨qinv_reach st.rk.property, tinv_reach st.rk.property, trinv_reach st.rk.property, rinv_reach st.rk.property,
-   einv_reach st.rk.property, ainv_reach st.rk.property, fun cb _ => cinv_reach cb.crec.property⟩
+    AsInv st.rk.val ∧ (∀ cb ∈ st.combs, CInv cb.crec.val) :=
+  ⟨qinv_reach st.rk.property.1, tinv_reach st.rk.property.1, trinv_reach st.rk.property.1,
+   rinv_reach st.rk.property.1, einv_reach st.rk.property.1, ainv_reach st.rk.property.1,
+   asinv_reach st.rk.property.1, fun cb _ => cinv_reach cb.crec.property⟩
 
 /-! ## Non-vacuity (tests on literals, not proofs of the property) -/
 
